@@ -200,6 +200,12 @@ def shortif_contexts(stmts, toks):
             labs.add('shortif_nested')
         if any(x[0] in ('return', 'break') for x in s[2]):
             labs.add('shortif_laststat')
+        if not s[2] and s[3]:
+            labs.add('shortif_empty_then_with_else')
+        if toks[b].paren_follows or (b + 1 < len(toks) and toks[b + 1].semi and toks[b + 1].paren_follows):
+            labs.add('shortif_then_line_starting_with_paren')
+    if any(t.paren_follows for t in toks):
+        labs.add('paren_statement_without_semicolon')
     return labs
 
 
@@ -228,7 +234,8 @@ def one(ctx, seed, mode):
             extra.add('incremental_%d_pieces' % min(len(pieces), 4))
             extra.add('incremental')
     if ctx is not None:
-        labs = sorted(shortif_contexts(stmts, toks) | {'mode_' + mode} | extra)
+        labs = sorted(shortif_contexts(stmts, toks) | {'mode_' + mode} | extra |
+                      ({'continue_idiom'} & set(tags)))
         if lay.comments:
             labs.append('comments')
         nontrivial = len(stmts) >= 3 or 'shortif' in labs or any(s[4] >= 1 for s in stmts)
@@ -327,7 +334,9 @@ def vacuity(total, tier):
     if total.classes.get('shortif', 0) < 0.10 * ev:
         msgs.append('only %d of %d programs contain a short-if' % (total.classes.get('shortif', 0), ev))
     for lab in ('shortif_else', 'shortif_in_block', 'shortif_at_end', 'shortif_followed', 'shortif_laststat',
-                'comments', 'mode_minimal', 'mode_lines', 'reused_parser', 'incremental', 'long_program'):
+                'comments', 'mode_minimal', 'mode_lines', 'reused_parser', 'incremental', 'long_program',
+                'shortif_empty_then_with_else', 'shortif_then_line_starting_with_paren',
+                'paren_statement_without_semicolon', 'continue_idiom'):
         if total.classes.get(lab, 0) < 5:
             msgs.append('class %s seen %d times' % (lab, total.classes.get(lab, 0)))
     if total.excluded.get('generator_selfcheck_failed', 0) > 0.02 * ev:
